@@ -403,7 +403,23 @@ impl Writer {
     ) -> Result<KeyDirEntry, Error> {
         // Append log entry
         let datafile_entry = DataFileEntry { tstamp, key, value };
-        let index = self.writer.append(&datafile_entry)?;
+        let index = match self.writer.append(&datafile_entry) {
+            Ok(index) => index,
+            Err(e) => {
+                // The active file may now end with a partial entry, and nothing can be appended
+                // after that without corrupting the file, so we continue in a new active file.
+                // What is left of the failed entry in the buffer must never reach the file.
+                let fileid = self.active_fileid + 1;
+                let writer = LogWriter::new(log::create(utils::datafile_name(
+                    self.ctx.conf.path.as_path(),
+                    fileid,
+                ))?)?;
+                std::mem::replace(&mut self.writer, writer).discard();
+                self.active_fileid = fileid;
+                self.written_bytes = 0;
+                return Err(e.into());
+            }
+        };
         // Sync immediately if the strategy is "always"
         if let SyncStrategy::Always = self.ctx.conf.sync {
             self.writer.sync()?;
